@@ -167,10 +167,10 @@ func (h *History) histTerm() string {
 		crashes = append(crashes, fmt.Sprintf("(mkcrash %d %d %s %s %s)", c.Op, c.Resume, coqgen.Bool(c.RestartErr), w.dumpTerm(c.Restart), w.dumpTerm(c.Final)))
 	}
 	var sb strings.Builder
-	fmt.Fprintf(&sb, "(mkhist %s %d\n %s\n %s\n %s\n %s\n %s %s\n %s)",
+	fmt.Fprintf(&sb, "(mkhist %s %d\n %s\n %s\n %s\n %s\n %s %s\n %s %s)",
 		w.ids.Addr(address.GenesisAddress), w.ids.Key(teamKey()),
 		w.blockTerm(w.genesis),
 		coqgen.List(blocks), coqgen.List(valid), "["+strings.Join(ops, ";\n  ")+"]", optDump(w, h.Fresh), coqgen.Bool(h.FreshOK),
-		"["+strings.Join(crashes, ";\n  ")+"]")
+		"["+strings.Join(crashes, ";\n  ")+"]", coqgen.Bool(!h.LMDBChecked || h.LMDBSame))
 	return sb.String()
 }
